@@ -112,7 +112,13 @@ impl Pattern {
     fn has_greedy_all(hir: &Hir) -> bool {
         match hir.kind() {
             HirKind::Repetition(repetition) => {
-                let is_dot = DOT_HIRS.contains(&repetition.sub);
+                // A capture group around the dot does not change what is repeated:
+                // `(.)*` is `.*`.
+                let mut sub = &*repetition.sub;
+                while let HirKind::Capture(capture) = sub.kind() {
+                    sub = &capture.sub;
+                }
+                let is_dot = DOT_HIRS.contains(sub);
                 let is_unbounded = repetition.max.is_none();
                 let is_greedy = repetition.greedy;
 
